@@ -81,3 +81,52 @@ Proof.
     + destruct (path_eq_dec q P_TMP); [contradiction|discriminate].
   - eexists. split; [vm_compute; reflexivity|reflexivity].
 Qed.
+
+(* ------------------------------------------------------------------ the round trip *)
+From Verif Require Import C24.Roundtrip.
+
+Theorem line_roundtrip_proof : line_roundtrip_stmt WFpath.
+Proof. intros e H. now apply line_roundtrip_lemma. Qed.
+
+Theorem contents_roundtrip_exact_proof : forall d, uniq_locs d -> Forall WFpath d ->
+  read_contents (write_contents d) = Ok (sort_entries d).
+Proof. exact contents_roundtrip_exact. Qed.
+
+Theorem contents_roundtrip_proof : contents_roundtrip_stmt.
+Proof.
+  intros d Hu Hw. exists (sort_entries d). split; [now apply contents_roundtrip_exact|apply sort_perm].
+Qed.
+
+Theorem contents_roundtrip_full_proof : forall d, uniq_locs d -> Forall WFpath d ->
+  read_contents (write_contents d) = Ok (sort_entries d) /\ Permutation (sort_entries d) d.
+Proof. intros d Hu Hw. split; [now apply contents_roundtrip_exact|apply sort_perm]. Qed.
+
+Theorem the_set_invariant_proof : forall raw,
+  uniq_locs (the_set raw) /\ Forall (fun e => normpath (eloc e) = eloc e) (the_set raw).
+Proof. exact the_set_invariant. Qed.
+
+(* the full statement (without the known-class exclusion) is false of the code *)
+Definition sym_witness : entry := ESym [47;97;32;45;62;32;98]%N [99]%N 7.       (* /a -> b  ->  c *)
+Theorem line_roundtrip_refuted_sym_proof :
+  wf_base sym_witness = true /\ known_class sym_witness = true /\
+  parse_line (strip (write_line sym_witness)) = Ok (ESym [47;97]%N [98;32;45;62;32;99]%N 7) /\
+  ~ line_roundtrip_full.
+Proof.
+  split; [reflexivity|]. split; [reflexivity|]. split; [vm_compute; reflexivity|].
+  intro H. specialize (H sym_witness eq_refl). vm_compute in H. discriminate.
+Qed.
+
+(* non-vacuity: the domain holds paths with embedded and doubled spaces, "->" fragments glued to
+   other characters in the location and free-standing in the target, non-ASCII characters, an md5
+   with leading zeros and a negative mtime; and the set really round-trips by computation *)
+Example wf_examples :
+  let d := [ EObj [47;97;32;98;47;99;32;32;100]%N 171 5;                  (* /a b/c  d *)
+             ESym [47;120;45;62;121]%N [116;32;45;62;32;117]%N (-3);       (* /x->y -> "t -> u" *)
+             EDir [47;233;47;26085]%N; EDev [47;100;32;101]%N; EFif [32;102]%N ] in
+  Forall WFpath d /\ uniq_locs d /\ read_contents (write_contents d) = Ok (sort_entries d).
+Proof.
+  cbn zeta. split; [|split].
+  - repeat constructor.
+  - repeat constructor; cbn; intuition discriminate.
+  - vm_compute. reflexivity.
+Qed.
